@@ -34,7 +34,8 @@ RegionOK(r) ==
 Failed(t) ==
   LET th == t.threads IN
   IF \E n \in 1..Len(th) : th[n].result # Alone(th[n].prog) THEN "result-not-as-if-alone"
-  ELSE IF \E n \in 1..Len(th) : Len(th[n].seqs) # AloneEntries(th[n].prog) THEN "history-length"
+  ELSE IF \E n \in 1..Len(th) : th[n].prog = "edit" /\ Len(th[n].seqs) # AloneEntries(th[n].prog)
+       THEN "history-length"
   ELSE IF \E n \in 1..Len(th) : \E a \in 1..Len(th[n].seqs) - 1 : th[n].seqs[a] >= th[n].seqs[a + 1]
        THEN "sequence-not-increasing"
   ELSE IF \E n, m \in 1..Len(th) : n # m /\ \E a \in 1..Len(th[n].seqs) : \E b \in 1..Len(th[m].seqs) :
